@@ -46,7 +46,8 @@ def gen(rng, tier):
            # travels right behind the CONNECT reply
            'welcome': rng.random() < 0.5,
            # connect(namespace=...): the simple client's one namespace
-           'namespace': rng.choice(['/', '/', '/chat'])}
+           'namespace': rng.choice(['/', '/', '/chat', '/chat/',
+                                    '/a/b/'])}
     consumer = []
     for _ in range(rng.randrange(3, 10)):
         k = rng.random()
@@ -342,7 +343,16 @@ def _run(case, cfg, w):
                namespace=NS)
     w.settle()
     if h.exc is not None or not sc.connected:
-        return {'harness': 'simple client failed to connect: %r' % (h.exc,)}
+        # nothing stands in the way of this connection: the server is up and
+        # accepts the namespace
+        v.add('initial_connect_failed', 'connect(namespace=%r) to a server '
+              'that accepts it: raised %r, connected=%s'
+              % (NS, h.exc, sc.connected))
+        return {'violations': v.items, 'digest': rec.digest.hex(),
+                'nontrivial': True, 'stats': {},
+                'sim_time': w.now() - 1_700_000_000.0,
+                'cfg': '%s/connect' % cfg['mode'],
+                'choices': w.choices.dump(), 'log': rec.dump_log()}
     buf = YieldList(kernel, rec)
     sc.input_buffer = buf
     # the instant the connection ends for good: __disconnect_final clears
